@@ -7,7 +7,7 @@ use log::warn;
 pub fn dms_to_dd(d: i32, m: u16, s: f64) -> f64 {
     // The sign is that of the degree-component, but a zero degree-component is not negative
     let sign = if d < 0 { -1. } else { 1. };
-    sign * (d.abs() as f64 + (m as f64 + s / 60.) / 60.)
+    sign * ((d as f64).abs() + (m as f64 + s / 60.) / 60.)
 }
 
 /// Simplistic transformation from degrees and minutes-with-decimals
@@ -17,7 +17,7 @@ pub fn dms_to_dd(d: i32, m: u16, s: f64) -> f64 {
 pub fn dm_to_dd(d: i32, m: f64) -> f64 {
     // The sign is that of the degree-component, but a zero degree-component is not negative
     let sign = if d < 0 { -1. } else { 1. };
-    sign * (d.abs() as f64 + (m / 60.))
+    sign * ((d as f64).abs() + (m / 60.))
 }
 
 /// Simplistic transformation from the ISO-6709 DDDMM.mmm format to
